@@ -271,6 +271,11 @@ def body_copula(case):
     if npts > (700 if d == 2 else 400) or any(len(a) < 5 for a in grid.axes):
         return [Violation("REJECTED", f"{npts} states: outside the per-case bound")]
     tag = f"C01/copula/d{d}/{case['copula']['type']}"
+    # the state excluded from the jump targets is the origin: the grid's origin coordinate must point at 0 on every axis
+    oc0 = tuple(np.atleast_1d(grid.origin_coordinate.value).tolist())
+    if len(oc0) != d or any(not (0 <= oc0[k] < len(grid.axes[k])) or float(grid.axes[k][oc0[k]]) != 0.0 for k in range(d)):
+        return [Violation(f"{tag}/origin-coordinate-does-not-point-at-zero",
+                          f"origin coordinate {oc0}, axis lengths {[len(a) for a in grid.axes]}; grid={case['grid']}")]
     proc = MarkovChainLevyCopula(levy_copula_model=model, grid=grid, method=_method(case["method"]))
     lam = float(proc.intensity_of_jumps)
     mt = proc.model
